@@ -286,6 +286,9 @@ func (s *BaseNodeService) executeOperation(operation *types.Operation) error {
 		if err != nil {
 			return fmt.Errorf("failed to get fsm instance during operation processing: %w", err)
 		}
+		if fsm.FSMDump().Payload.DKGProposalPayload == nil {
+			return fmt.Errorf("dkg round %s has no key generation data", dkgID)
+		}
 		fsm.FSMDump().Payload.DKGProposalPayload.PubPolyBz = operation.ExtraData
 		dump, err := fsm.Dump()
 		if err != nil {
